@@ -22,6 +22,7 @@ import c03_gen
 import c03_model as M
 import c03_progs as P
 import c03_parser as PP
+import c03_log as LG
 
 POOL = ["wrong-arg-types", "attribute-error", "name-error", "bad-return-type", "annotation-type-mismatch",
         "not-callable", "unsupported-operands", "missing-parameter", "wrong-arg-count", "wrong-keyword-args"]
@@ -378,6 +379,9 @@ def classify_director(ed, info, queries, before, after, groups_new, table, live,
 # end-to-end oracle (real pytype)
 
 _LOADER = {}
+LOG_SINK = None      # when a list: analyse() records the ErrorLog history of (a bounded number of) programs
+LOG_SINK_CAP = 0
+LOG_SEEN = set()
 
 
 def analyse(src, disable=()):
@@ -389,8 +393,15 @@ def analyse(src, disable=()):
         config.Options.create(python_version=(3, 12))
     _LOADER[key] = (opts, load_pytd.create_loader(opts))
   opts, loader = _LOADER[key]
+  rec = None
   try:
-    ret, pyi = io.generate_pyi(src, opts, loader)
+    if LOG_SINK is not None and len(LOG_SINK) < LOG_SINK_CAP and (src, key) not in LOG_SEEN:
+      LOG_SEEN.add((src, key))
+      with LG.Recorder() as rec:
+        ret, pyi = io.generate_pyi(src, opts, loader)
+      LOG_SINK.append((src, list(disable), rec))
+    else:
+      ret, pyi = io.generate_pyi(src, opts, loader)
   except Exception as e:  # pylint: disable=broad-except
     return None, f"{type(e).__name__}: {str(e)[:200]}"
   errs = [(e.line, e.name, e.message) for e in ret.context.errorlog]
@@ -641,7 +652,7 @@ def run(res):
     res.obligation("translator:error-classes", False, str(e))
     return "proof"
   t_phase = time.time()
-  common.coq_obligations(res, "C03", extra_targets=["Directors/Cases.vo", "Directors/ParserCases.vo"])
+  common.coq_obligations(res, "C03", extra_targets=["Directors/Cases.vo", "Directors/ParserCases.vo", "Directors/LogCases.vo"])
   res.extra["coq_build_wall_s"] = round(time.time() - t_phase, 1)
   common.bootstrap_pytype()
   from pytype.directors import directors
@@ -956,7 +967,10 @@ def run(res):
   res.extra["parser_nonempty_group_shapes"] = dict(p_shapes)
   res.extra["coq_cases_wall_s"] = round(time.time() - t0, 1)
 
-  # --- end-to-end metamorphic oracle
+  # --- end-to-end metamorphic oracle (the first analyses also record the real ErrorLog's operation history)
+  global LOG_SINK, LOG_SINK_CAP
+  LOG_SINK, LOG_SINK_CAP = [], (400 if thorough else 45)
+  LOG_SEEN.clear()
   t0 = time.time()
   c0 = time.process_time()   # the e2e budget is CPU time of this process: coverage must not depend on machine load
   budget = 600 if thorough else 32
@@ -1051,10 +1065,144 @@ def run(res):
   res.extra["deviations_seen"] = dict(dev_hist)
   res.extra["edits_by_kind"] = dict(kinds)
   res.obligation("e2e:ran", n_e2e > 0, "no end-to-end comparison could be run")
+  error_log_leg(res, r, table, thorough, report)
   if thorough:
     ok, out = common_coqchk("C03")
     res.obligation("coqchk", ok, out[-1500:])
   return "proof"
+
+
+DIRECTOR_ERROR_PROGRAMS = {
+    "type-comment-no-assignment": "def foo(x): return x\nfoo(1)  # type: int\nfoo(undefined_a)\n",
+    "type-comment-mid-expression": "x = [1,  # type: int\n     undefined_b]\n",
+    "multiple-type-comments": "x = (1,  # type: int\n  2)  # type: str\ny = undefined_c\n",
+    "malformed-directive": "x = undefined_d  # pytype: ignore\ny = undefined_e  # pytype: disable\n",
+    "unknown-error-name": "x = undefined_f  # pytype: disable=nmae-error,name-error\ny = undefined_g\n",
+    "unknown-command": "x = undefined_h  # pytype: silence=name-error\n",
+    "late-directive": "def f() -> int:\n  # pytype: disable=bad-return-type\n  return 'a'\nx = undefined_i\n",
+    "late-type-ignore": "def f(): pass\n# type: ignore\nx = undefined_j\n",
+    "type-ignore-variants": "x = undefined_k  # type: ignore[name-error]\ny = undefined_l  # type:ignore\nz = undefined_m # type: ignore # pytype: disable=attribute-error\n",
+    "quoted-annotation": "def f(x: 'Undefined1') -> 'Undefined2':  # pytype: disable=attribute-error\n  return x\ny: 'Undefined3' = 1\n",
+    "quoted-annotation-silenced": "def f(x: 'Undefined1'): return x  # pytype: disable=name-error\ny: 'List[Undefined3]' = []  # type: ignore\nz: 'Undefined4' = 1\n",
+    "type-comment-names": "x = []  # type: Undefined5\ny = 1  # type: Undefined6  # pytype: disable=name-error\n",
+    "incomplete-match": "from typing import Literal\ndef h(x: Literal['a', 'b']):\n  match x:\n    case 'a':\n      return 1\nprint(undefined_n)\n",
+    "incomplete-match-silenced": "from typing import Literal\ndef h(x: Literal['a', 'b']):\n  match x:  # pytype: disable=incomplete-match\n    case 'a':\n      return 1\n",
+    "union-annotation-checkpoint": "def f(x: int | 'Undefined7'): return x\ny = int | undefined_o\n",
+}
+
+
+def error_log_leg(res, r, table, thorough, report):
+  """Model of errors.py ErrorLog + the run_program wiring vs the real code: recorded histories of whole programs
+  (those analysed by the e2e leg + DIRECTOR_ERROR_PROGRAMS) and synthetic histories on the real ErrorLog."""
+  global LOG_SINK
+  from pytype import preprocess
+  t0 = time.time()
+  recs = []       # (tag, src, disable, Recorder, filename)
+  sink, LOG_SINK = LOG_SINK or [], None
+  for name, src in sorted(DIRECTOR_ERROR_PROGRAMS.items()):
+    LOG_SINK = []
+    LOG_SEEN.discard((src, ()))
+    b, why = analyse(src, [])
+    if LOG_SINK:
+      recs.append(("director-errors:" + name, src, [], LOG_SINK[0][2]))
+    LOG_SINK = None
+  for src, disable, rec in sink:
+    recs.append(("e2e-program", src, disable, rec))
+  n_whole = len(recs)
+  names = ["name-error", "attribute-error", "wrong-arg-types", "bad-return-type", "invalid-directive",
+           "ignored-type-comment", "late-directive", "annotation-type-mismatch"]
+  n_syn = 160 if thorough else 30
+  tries = 0
+  while len(recs) < n_whole + n_syn and tries < 4 * n_syn:
+    tries += 1
+    src = P.gen_program(r, r.randint(1, 2))
+    src = with_pre_directives(r, src, r.randint(1, 3))
+    if not parses(src):
+      continue
+    for ed in make_edits(r, src, 2, 1, 1, 0, 0)[:3]:
+      _, new, _ = apply_edit(src, ed)
+      if parses(new):
+        src = new
+    disable = r.choice([[], [], ["name-error"], ["attribute-error", "bogus"]])
+    rec = LG.drive_synthetic(r, src, disable, names, r.randint(15, 60))
+    if rec is not None:
+      recs.append(("synthetic", src, disable, rec))
+  res.extra["errorlog_generation_wall_s"] = round(time.time() - t0, 1)
+  ids = M.Ids(table)
+  texts, meta = [], []
+  op_hist = collections.Counter()
+  pre_classes = collections.Counter()
+  n_copy_same = collections.Counter()
+  for tag, src, disable, rec in recs:
+    if rec.log is None and not rec.ops:
+      continue      # nothing was logged and no filter installed: no history
+    filename = rec.director._filename if rec.director is not None else M.FILENAME    # pylint: disable=protected-access
+    # direct oracles on the implementation
+    for fp, detail in LG.oracle(rec, filename):
+      report(fp, detail, {"src": src, "disable": disable, "level": "log", "from": tag})
+    if tag == "synthetic":
+      psrc = src
+    else:
+      psrc = preprocess.augment_annotations(src)
+    try:
+      groups, fr_items, ret_lines, _ = M.real_parse(psrc)
+    except Exception:  # pylint: disable=broad-except
+      continue
+    seen_filter = False
+    for o in rec.ops:
+      op_hist[o[0]] += 1
+      if o[0] == "setfilter":
+        seen_filter = True
+      elif o[0] == "add" and not seen_filter:
+        pre_classes[o[1][2]] += 1
+    n_copy_same.update(rec.copy_arg_is_last_record)
+    texts.append(LG.case_text(len(texts), [ids.of(n) for n in disable], fr_items, ret_lines, groups, ids,
+                              rec.ops, rec.final(), filename))
+    meta.append((tag, src, disable, rec))
+    res.count(("log", src, tuple(disable), len(rec.ops)) if len(rec.ops) > 1 else None)
+  bad = 0
+  n_foreign_bad = 0
+  if texts:
+    per = 28
+    files = [(f"c03_log_{k // per}", LG.cases_file(
+        [t.replace(f"Definition lcase_{k + j} :", f"Definition lcase_{j} :", 1) for j, t in enumerate(texts[k:k + per])]))
+             for k in range(0, len(texts), per)]
+    t1 = time.time()
+    results = common.run_cases_parallel(files)
+    res.extra["errorlog_coq_wall_s"] = round(time.time() - t1, 1)
+    for fi, (name, _) in enumerate(files):
+      ok, out = results[name]
+      terms = common.parse_coq_eval(out) if ok else []
+      rows = LG.parse_results(terms[0]) if len(terms) == 1 else None
+      want = len(texts[fi * per:(fi + 1) * per])
+      if rows is None or len(rows) != want or any(len(x) != 2 for x in rows):
+        res.obligation("correspondence:coq-run:" + name, False, out[-1500:])
+        bad += 1
+        continue
+      for j, (code, foreign) in enumerate(rows):
+        tag, src, disable, rec = meta[fi * per + j]
+        if not foreign:
+          n_foreign_bad += 1
+          if tag != "synthetic":
+            res.obligation("hypothesis:copied-records-are-foreign:" + tag, False,
+                           f"copy_from of a record holding an error of the analysed file; source:\n{src}")
+        if code != 0:
+          bad += 1
+          if bad <= 3:
+            res.obligation("correspondence:errorlog:" + tag, False,
+                           f"{LG.CODES.get(code, code)}: real final log {[(s[1], s[2]) for s in rec.final()][:12]}; "
+                           f"ops {[o[:2] for o in rec.ops][:25]}; disable={disable}; source:\n{src}")
+  res.obligation("correspondence:errorlog-model-vs-errors.py", bad == 0,
+                 f"{bad} of {len(texts)} recorded histories: the model's final log differs from the real one")
+  res.obligation("errorlog:ran", len(texts) > 0 and op_hist["setfilter"] > 0, "no history was recorded")
+  res.extra["errorlog_histories"] = {"whole_programs": sum(1 for m in meta if m[0] != "synthetic"),
+                                     "synthetic": sum(1 for m in meta if m[0] == "synthetic")}
+  res.extra["errorlog_ops"] = dict(op_hist)
+  res.extra["errorlog_prefilter_error_classes"] = dict(pre_classes)
+  res.extra["errorlog_copy_from_argument_is_latest_record"] = {str(k): v for k, v in n_copy_same.items()}
+  res.extra["errorlog_synthetic_histories_with_same_file_record_copied"] = n_foreign_bad
+  res.extra["errorlog_wall_s"] = round(time.time() - t0, 1)
+
 
 
 def common_coqchk(pid):
@@ -1083,6 +1231,26 @@ def replay(res, path):
     dv = PP.oracles(real)
     print("---- deviations from the parser theorems' statements:")
     for x in dv[:10]:
+      print("  ", x)
+    want = d.get("fingerprint", "").replace("c03:", "")
+    return 1 if any(x[0] == want for x in dv) or (not want and dv) else 0
+  if rp.get("level") == "log":
+    print("---- program")
+    print(rp["src"])
+    with LG.Recorder() as rec:
+      from pytype import io as _io, config as _config
+      try:
+        _io.generate_pyi(rp["src"], _config.Options.create(python_version=(3, 12), disable=",".join(rp.get("disable", []))) if rp.get("disable") else _config.Options.create(python_version=(3, 12)))
+      except Exception as e:  # pylint: disable=broad-except
+        print("analysis raised", type(e).__name__, e)
+    print("---- recorded ErrorLog operations:")
+    for o in rec.ops:
+      print("  ", o)
+    print("---- final log:", [(x[1], x[2]) for x in rec.final()])
+    fn = rec.director._filename if rec.director is not None else None    # pylint: disable=protected-access
+    dv = LG.oracle(rec, fn)
+    print("---- deviations:")
+    for x in dv:
       print("  ", x)
     want = d.get("fingerprint", "").replace("c03:", "")
     return 1 if any(x[0] == want for x in dv) or (not want and dv) else 0
